@@ -41,10 +41,12 @@ pub fn run(args: &[String]) {
               let p = &mut m as *mut crate::mem::MemoryAreas;
               crate::mem::memory_write_byte(p, 0xa000, 0x5a);
               crate::mem::memory_write_byte(p, 0xa7ff, 0xa5);
-              (m.rom.len(), m.cart_ram.len(), crate::mem::memory_read_byte(p, 0xa000), crate::mem::memory_read_byte(p, 0xa7ff))
+              // the controller that was built: a ROM-only cartridge ignores bank-register writes, MBC1 / MBC3 select bank 2
+              crate::mem::memory_write_byte(p, 0x2000, 2);
+              (m.rom.len(), m.cart_ram.len(), crate::mem::memory_read_byte(p, 0xa000), crate::mem::memory_read_byte(p, 0xa7ff), m.get_rom_bank())
             }));
             match built {
-              Ok((rl, cl, b0, b1)) => { obs["built_rom"] = json!(rl); obs["built_ram"] = json!(cl); obs["ram_rw"] = json!([b0, b1]); },
+              Ok((rl, cl, b0, b1, bank)) => { obs["built_rom"] = json!(rl); obs["built_ram"] = json!(cl); obs["ram_rw"] = json!([b0, b1]); obs["bank_after_write"] = json!(bank); },
               Err(_) => { obs["built_rom"] = json!(-1); },
             }
           }
@@ -67,6 +69,8 @@ pub fn run(args: &[String]) {
           if obs["built_ram"] != case["ramsize"] { d.push("built-ram-size"); }
           let stores = obs["ram_rw"] == json!([0x5a, 0xa5]);
           if stores != (ju(&case["ramsize"]) > 0) { d.push("ram-storage"); }
+          let want_bank = if case["kind"] == "rom" { 1 } else { 2 };
+          if ju(&obs["bank_after_write"]) != want_bank { d.push("controller-kind"); }
         }
       }
     }
